@@ -16,6 +16,7 @@ mod c06;
 mod c12;
 mod c13;
 mod c17;
+mod c18;
 mod c20;
 mod canon;
 mod framework;
@@ -35,7 +36,12 @@ use world::*;
 
 fn registry() -> Vec<Arc<dyn Check>> {
     let mut v: Vec<Arc<dyn Check>> = vec![Arc::new(c05::C05)];
-    for id in ["C01", "C02", "C03", "C04", "C07", "C08", "C09", "C10", "C11", "C14", "C15", "C16", "C19"] {
+    v.push(Arc::new(Composite {
+        id: "C02",
+        step: Arc::new(stepchecks::StepCheck { id: "C02", quick: 15_000, thorough: 900_000 }),
+        burst: Arc::new(c18::C18 { id: "C02" }),
+    }));
+    for id in ["C01", "C03", "C04", "C07", "C08", "C09", "C10", "C11", "C14", "C15", "C16", "C19"] {
         v.push(Arc::new(stepchecks::StepCheck { id, quick: 30_000, thorough: 1_500_000 }));
     }
     v.push(Arc::new(c06::C06));
@@ -43,7 +49,56 @@ fn registry() -> Vec<Arc<dyn Check>> {
     v.push(Arc::new(c12::C12));
     v.push(Arc::new(c13::C13));
     v.push(Arc::new(c20::C20));
+    v.push(Arc::new(c18::C18 { id: "C18" }));
     v
+}
+
+/// C02 = step-mode histories (3 of 4 runs) + burst-mode nickname races under gates (1 of 4 runs)
+struct Composite {
+    id: &'static str,
+    step: Arc<dyn Check>,
+    burst: Arc<dyn Check>,
+}
+
+impl Check for Composite {
+    fn id(&self) -> &'static str {
+        self.id
+    }
+    fn runs(&self, tier: Tier) -> u64 {
+        self.step.runs(tier) / 3 * 4
+    }
+    fn rule(&self) -> String {
+        format!("runs with index % 4 != 3: {} || runs with index % 4 == 3: {}", self.step.rule(), self.burst.rule())
+    }
+    fn assumptions(&self) -> Vec<String> {
+        let mut a = self.step.assumptions();
+        a.extend(self.burst.assumptions());
+        a
+    }
+    fn probes(&self) -> Vec<&'static str> {
+        vec!["gate.parked.LockWrite", "linearised", "template.nick_race_unreg"]
+    }
+    fn gen(&self, run_seed: u64, idx: u64, tier: Tier) -> Trace {
+        if idx % 4 == 3 {
+            self.burst.gen(run_seed, idx / 4, tier)
+        } else {
+            self.step.gen(run_seed, idx, tier)
+        }
+    }
+    fn exec(&self, trace: &Trace) -> framework::Outcome {
+        if trace.params.contains_key("template") {
+            self.burst.exec(trace)
+        } else {
+            self.step.exec(trace)
+        }
+    }
+    fn simplify(&self, t: &Trace) -> Vec<Trace> {
+        if t.params.contains_key("template") {
+            self.burst.simplify(t)
+        } else {
+            vec![]
+        }
+    }
 }
 
 fn find_check(id: &str) -> Option<Arc<dyn Check>> {
@@ -79,6 +134,40 @@ fn smoke(seed: u64) -> String {
     }).unwrap()
 }
 
+/// Process-global lazies (argon2 parameters, chrono's time-zone cache, clap/toml tables, the password memo ...) are
+/// initialised by whichever thread touches them first; if that is a simulation thread its HashMap key sequence
+/// shifts by the number of maps created during the initialisation. One throw-away run touching all of them makes
+/// every later run independent of what ran before it in the process (found by `selftest`).
+fn warmup() {
+    let _ = world::hash_password("warmup");
+    let _ = rt::run_sim(1, || async {
+        let mut cfg = SimConfig::default();
+        cfg.password = Some("warmup".into());
+        cfg.operators.push(OperCfg { name: "root".into(), password: "warmup".into(), mask: Some("*!*@*".into()) });
+        cfg.channels.push(ChanCfg { name: "#pre".into(), topic: Some("t".into()), ban: vec!["x!*@*".into()], ..Default::default() });
+        let mut w = World::new(&cfg).await;
+        let a = w.open("10.0.0.1", false);
+        let b = w.open("::1", false);
+        for l in ["PASS warmup", "NICK wa", "USER wa 0 * :wa", "OPER root warmup", "OPER root nope", "TIME", "STATS u", "STATS m", "JOIN #pre,#x", "MODE #x +b a!*@*", "MODE #x +b",
+                  "WHOIS wa", "NICK wb", "WHOWAS wa", "HELP", "HELP COMMANDS", "INFO", "VERSION", "ADMIN", "LINKS", "LIST", "NAMES", "WHO *", "PRIVMSG #x,wb,#x :hi", "TOPIC #x :t", "TOPIC #x",
+                  "AWAY :gone", "USERHOST wb", "ISON wb", "LUSERS", "MOTD", "KICK #x wb", "INVITE wb #pre", "WALLOPS :x", "FROB", "PRIVMSG", "MODE #x +z", "MODE wb +x", "CAP LS 302", "CAP END", "KILL wb :x"] {
+            w.apply(&Action::line(a, l)).await;
+            w.settle().await;
+        }
+        w.apply(&Action::Send { c: b, d: world::esc(b"NICK \xff\r\n") }).await;
+        w.settle().await;
+        let _ = w.observe();
+    });
+    // the configuration start-up path (clap, toml, validator)
+    let path = format!("/tmp/sircsim-warmup-{}.toml", std::process::id());
+    let _ = std::fs::write(&path, "name = \"a.b\"\n");
+    if let Ok(cli) = <Cli as clap::Parser>::try_parse_from(["x", "-c", path.as_str(), "-n", "c.d"]) {
+        let _ = MainConfig::new(cli);
+    }
+    let _ = std::fs::remove_file(&path);
+    let _ = rt::take_panic_log();
+}
+
 fn env_u64(k: &str) -> Option<u64> {
     std::env::var(k).ok().and_then(|v| v.trim().parse::<u64>().ok())
 }
@@ -86,6 +175,9 @@ fn env_u64(k: &str) -> Option<u64> {
 fn main() {
     let args: Vec<String> = std::env::args().collect();
     let cmd = args.get(1).map(|s| s.as_str()).unwrap_or("");
+    if matches!(cmd, "check" | "replay" | "digests" | "dump" | "smoke") {
+        warmup();
+    }
     match cmd {
         "smoke" => {
             let seed = args.get(2).and_then(|s| s.parse().ok()).unwrap_or(1);
@@ -112,6 +204,130 @@ fn main() {
                     std::process::exit(2);
                 }
             }
+        }
+        "dump" => {
+            // prints the full transcript of one generated run (debugging aid)
+            let id = args.get(2).cloned().unwrap_or_default();
+            let idx: u64 = args.get(3).and_then(|s| s.parse().ok()).unwrap_or(0);
+            let seed = env_u64("VERIF_SEED").unwrap_or(framework::DEFAULT_SEED);
+            let c = find_check(&id).unwrap();
+            let run_seed = rt::mix(rt::mix(seed, framework::hash_key(&[c.id()])), idx);
+            let t = c.gen(run_seed, idx, Tier::Quick);
+            let t2 = t.clone();
+            let lines = rt::run_sim(run_seed, move || async move {
+                let mut w = World::new(&t2.config).await;
+                let mut out = vec![];
+                for a in &t2.actions {
+                    w.apply(a).await;
+                    if matches!(a, Action::Settle) {
+                        for (i, o) in w.observe().iter().enumerate() {
+                            for l in &o.lines {
+                                out.push(format!("{} <- {}", i, l));
+                            }
+                        }
+                    }
+                }
+                out
+            })
+            .unwrap();
+            for l in lines {
+                println!("{}", l);
+            }
+        }
+        "digests" => {
+            // prints one line per run: index, event-log digest, steps (used by selftest to compare processes)
+            let id = args.get(2).cloned().unwrap_or_default();
+            let n: u64 = args.get(3).and_then(|s| s.parse().ok()).unwrap_or(100);
+            let seed = env_u64("VERIF_SEED").unwrap_or(framework::DEFAULT_SEED);
+            let jobs = env_u64("VERIF_JOBS").unwrap_or(16) as usize;
+            let c = match find_check(&id) {
+                Some(c) => c,
+                None => std::process::exit(2),
+            };
+            let next = Arc::new(std::sync::atomic::AtomicU64::new(0));
+            let results = Arc::new(std::sync::Mutex::new(std::collections::BTreeMap::new()));
+            let mut hs = vec![];
+            for _ in 0..jobs.max(1) {
+                let (c, next, results) = (c.clone(), next.clone(), results.clone());
+                hs.push(std::thread::spawn(move || loop {
+                    let idx = next.fetch_add(1, std::sync::atomic::Ordering::SeqCst);
+                    if idx >= n {
+                        break;
+                    }
+                    let run_seed = rt::mix(rt::mix(seed, framework::hash_key(&[c.id()])), idx);
+                    let t = c.gen(run_seed, idx, Tier::Quick);
+                    let o = c.exec(&t);
+                    if idx == 0 && std::env::var("VERIF_DUMP").is_ok() {
+                        for (i, tl) in o.tails.iter().enumerate() {
+                            for l in tl {
+                                eprintln!("{} <- {}", i, l);
+                            }
+                        }
+                    }
+                    results.lock().unwrap().insert(idx, format!("{} {:x} {} {} {:?}", idx, o.digest, o.steps, o.vt_ms, o.violation.as_ref().map(|v| v.sig.clone())));
+                }));
+            }
+            for h in hs {
+                let _ = h.join();
+            }
+            for (_, l) in results.lock().unwrap().iter() {
+                println!("{}", l);
+            }
+        }
+        "selftest" => {
+            let exe = std::env::current_exe().unwrap();
+            let n = args.get(2).and_then(|s| s.parse::<u64>().ok()).unwrap_or(200);
+            let mut bad = 0;
+            // 1. interposition of entropy and wall clock is in effect
+            let (e, c) = rt::run_sim(7, || async {
+                let cfg = SimConfig::default();
+                let mut w = World::new(&cfg).await;
+                let a = w.open("10.0.0.1", false);
+                w.apply(&Action::line(a, "NICK x")).await;
+                w.apply(&Action::line(a, "USER x 0 * :x")).await;
+                w.apply(&Action::line(a, "TIME")).await;
+                w.settle().await;
+                let _ = w.observe();
+                let now = std::time::SystemTime::now().duration_since(std::time::UNIX_EPOCH).unwrap().as_secs() as i64;
+                (rt::ENTROPY_CALLS.with(|x| x.get()), (now - rt::EPOCH0_SECS).abs() < 5)
+            })
+            .unwrap();
+            println!("selftest interposition: getrandom calls answered from the seed = {}, wall clock virtual = {}", e, c);
+            if e == 0 || !c {
+                println!("SELFTEST-FAIL interposition not effective");
+                bad += 1;
+            }
+            // 2. same seed => same event log, across processes and worker counts
+            for id in ["C01", "C02", "C05", "C06", "C12", "C13", "C14", "C17", "C18", "C20"] {
+                let mut outs = vec![];
+                for jobs in ["1", "4", "16", "16"] {
+                    let o = std::process::Command::new(&exe).args(["digests", id, &n.to_string()]).env("VERIF_JOBS", jobs).output();
+                    match o {
+                        Ok(o) => outs.push(String::from_utf8_lossy(&o.stdout).to_string()),
+                        Err(e) => {
+                            println!("SELFTEST-FAIL cannot run child: {}", e);
+                            bad += 1;
+                        }
+                    }
+                }
+                let same = outs.windows(2).all(|w| w[0] == w[1]) && !outs.is_empty() && outs[0].lines().count() as u64 == n;
+                let distinct: std::collections::HashSet<&str> = outs[0].lines().filter_map(|l| l.split(' ').nth(1)).collect();
+                println!("selftest determinism {}: {} runs x 4 processes (jobs 1,4,16,16): {} ; {} distinct digests", id, n, if same { "identical" } else { "DIFFERENT" }, distinct.len());
+                if !same {
+                    bad += 1;
+                    for (a, b) in outs[0].lines().zip(outs[1].lines()) {
+                        if a != b {
+                            println!("  first difference: {} | {}", a, b);
+                            break;
+                        }
+                    }
+                }
+            }
+            if bad > 0 {
+                println!("SELFTEST-FAILED");
+                std::process::exit(2);
+            }
+            println!("SELFTEST-OK");
         }
         "replay" => {
             let path = args.get(2).cloned().unwrap_or_default();
